@@ -322,6 +322,11 @@ def history_pool(r):
         pool.append("SELECT z.a FROM %s z JOIN %s y ON z.a = y.a" % (n, BASES[1]))
         pool.append("INSERT INTO %s (a, b) SELECT a, b FROM %s" % (BASES[0], n))
         pool.append("SELECT a FROM s.%s" % n)
+        # set operations: the analyzer MERGES the branches' sources column by column — a walker result that is shared between calls (memoised, handed out by
+        # reference) is extended in place there; visible when the statement is analysed again, or when a later statement has a select expression equal to one of
+        # the first branch's
+        pool.append("SELECT a FROM %s UNION ALL SELECT c FROM %s" % (n, BASES[1]))
+        pool.append("SELECT a, b FROM %s UNION SELECT b, c FROM %s UNION ALL SELECT c, a FROM %s" % (BASES[0], n, BASES[2]))
         pool.append("SELECT %s.a, u.b FROM (SELECT a, c FROM %s) %s JOIN (WITH act AS (SELECT a, b FROM %s) SELECT a, b FROM act) u ON %s.a = u.a" % (n, BASES[0], n, BASES[1], n))
     return [("MYSQL", s_) for s_ in pool]
 
@@ -374,6 +379,12 @@ def lineage_histories(ctx, r):
         readers = [p_ for p_ in pool if p_[1].endswith("FROM %s" % nme) or ("FROM %s z" % nme) in p_[1]]
         for mode in ("shared", "fresh"):
             hists.append((mode, [r.choice(definers), r.choice(readers)]))
+    # … a set operation twice, and a set operation followed by a plain statement that selects the same column expressions
+    unions = [p_ for p_ in pool if " UNION " in p_[1]]
+    for u in unions[: 6 if ctx.quick else len(unions)]:
+        for mode in ("shared", "fresh"):
+            hists.append((mode, [u, u]))
+            hists.append((mode, [u, r.choice([p_ for p_ in pool if p_[1].startswith("SELECT a FROM") and " UNION " not in p_[1]]), u]))
     while len(hists) < n:
         hists.append((r.choice(["shared", "fresh"]), [r.choice(pool) for _ in range(2 + r.below(3))]))
     distinct = sorted({st for _, h in hists for st in h})
